@@ -205,6 +205,31 @@ Theorem C17_other_flavour_is_error : forall c s u n ks t, fixed c = true -> ttyp
 Proof. exact alloc_other_flavour. Qed.
 Print Assumptions C17_other_flavour_is_error.
 
+(* ---- several handles on one series (a re-acquired sub-scope, a second root
+   scope on the same reporter, Allocate* called again): in EVERY state, a cached
+   (name, tags) whose child exists is handed out again as a handle on the SAME
+   series, whose value is untouched ... ---- *)
+Theorem C17_realloc_same_series : forall c s u n tags v x,
+  alloc_vec c s u n (map fst tags) = (s, VOk (Some v)) ->
+  afind key_eqb (v, map snd tags) (sers s) = Some x ->
+  let r := rstep c s (RAlloc u n tags) in
+  snd r = OMetric (MReal (v, map snd tags)) /\
+  nth_error (handles (fst r)) (length (handles s)) = Some (MReal (v, map snd tags)) /\
+  sers (fst r) = sers s /\ vecs (fst r) = vecs s /\ cblog (fst r) = cblog s.
+Proof. exact realloc_same_series. Qed.
+Print Assumptions C17_realloc_same_series.
+
+(* ... and reports through any two handles of a series act on that one value
+   in the order they are made (sum over all handles / latest report wins /
+   observations into the same summary or histogram): no per-handle state *)
+Theorem C17_handles_share_series : forall s h1 h2 k x d1 d2,
+  nth_error (handles s) h1 = Some (MReal k) -> nth_error (handles s) h2 = Some (MReal k) ->
+  afind key_eqb k (sers s) = Some x ->
+  let bs := vbounds (nth (fst k) (vecs s) dvec) in
+  afind key_eqb k (sers (deliver_h (deliver_h s h1 d1) h2 d2)) = Some (apply bs (apply bs x d1) d2).
+Proof. exact handles_share_series. Qed.
+Print Assumptions C17_handles_share_series.
+
 (* ---------------- non-vacuity ---------------- *)
 (* a history with two counters of one family, a gauge and a value histogram
    {1, 2}; records, an intermediate pass, more records *)
@@ -264,4 +289,17 @@ Example C17_example_conflict :
   cblog (fst r) = [3; 2] /\
   gathered (fst r) [120] [[118]] =
     Some (Vec [120] ([120] ++ sfx_summary) [[107]] PSummary [], SSummary 1).
+Proof. vm_compute. repeat split; reflexivity. Qed.
+
+(* a gauge allocated twice: 2.0 through the first handle, then 0 through the
+   second one; Gather shows 0, and a counter adds up over both its handles *)
+Example C17_example_second_handle :
+  let r := rrun ex_cfg (init [])
+             [RAlloc UGauge [103] [([107], [118])]; RDeliver 0 (DGauge F2);
+              RAlloc UGauge [103] [([107], [118])]; RDeliver 1 (DGauge 0);
+              RAlloc UCounter [99] []; RDeliver 2 (DCount 5);
+              RAlloc UCounter [99] []; RDeliver 3 (DCount 7); RDeliver 2 (DCount 1)] in
+  cblog (fst r) = [] /\
+  gathered (fst r) [103] [[118]] = Some (Vec [103] ([103] ++ sfx_gauge) [[107]] PGauge [], SGauge 0) /\
+  gathered (fst r) [99] [] = Some (Vec [99] ([99] ++ sfx_counter) [] PCounter [], SCounter 13).
 Proof. vm_compute. repeat split; reflexivity. Qed.
